@@ -38,6 +38,7 @@ FRAGMENTS = [
     "0", "07", "1", "00", "15", "0A", "ZZ", "99" + "F" * 40, "1" * 300, "f" * 301, "netconanRemoved0", "! Sensitive line SCRUBBED by netconan",
     "%s", "%(x)s", "{}", "{0}", "%", "%%", "<pre_shared_key>", "</pre_shared_key>", "PreSharedKey\": \"",
     "password", "secret", "key", "community", "additive", "(1:2)", "$foo:$bar", "peeras:1",
+    "\u0130STANBUL-POP", "\u0131stanbul", "\u017fea", "\u212aiwi", "ZUR\u0130CH", "stra\u1e9ee", "\ufb01le", "\u01c5", "\u03a3\u03c2", "i\u0307stanbul", "$1$$x$y", "$1$$$", "$1$$a$b$c",
 ]
 LONG = ['"', "'", "[", "{", "]", "}", ";", ",", "\\'", '\\"', " ", "\t", "(", "a", "1", ":", ".", "$", "\\"]
 SALTS = [""] + list(J9A) + ["_x", "+x", " x", "éx", "$x", "\\", "\x00", "x" * 500, "salt", "-s", "%s"]
@@ -91,7 +92,8 @@ def hostile_line(rng):
 
 
 def opts_for(salt, rng):
-    return {"salt": salt, "words": rng.choice([["zurich"], ["x.y", "zz+w", "r|s", "a(b"], ["sea", "seattle"], ["\\d", "p[q", "j\\j"]]),
+    return {"salt": salt, "words": rng.choice([["zurich"], ["x.y", "zz+w", "r|s", "a(b"], ["sea", "seattle"], ["\\d", "p[q", "j\\j"],
+                                 ["istanbul", "sea", "kiwi", "zurich", "file", "strasse"], ["\u0130stanbul", "gro\xdfmann", "\u03c3"]]),
             "asns": rng.choice([["65000"], ["1", "12", "123"], ["0", "4294967295"]]), "reserved": rng.choice([None, ["MyWord", "\\x"]]),
             "pp": rng.choice([None, [], ["0.0.0.0/0"]]), "pa": rng.choice([None, ["10.0.0.0/8"]]),
             "B4": rng.choice([None, 0, 8, 32]), "B6": rng.choice([None, 0, 8, 32, 128])}
